@@ -5,6 +5,7 @@ import (
 	"crypto/sha256"
 	"encoding/binary"
 	"fmt"
+	"regexp"
 	"sort"
 	"strings"
 
@@ -46,15 +47,29 @@ func rawKeys(s *sut, ks []pageKey) map[rawKey]int {
 // class is the context class of a violation: which known-fragile situation the
 // call was made in. It is part of the signature so that the same symptom in a
 // plain situation is a different (new) violation.
-func (r *ref) class(o op, touched []pageKey, f fact) string {
-	for _, k := range touched {
-		if r.shared(k.v) {
-			return "two-processes-same-vaddr"
-		}
+func (r *ref) class(o op, touched []pageKey, f fact, stolen, stale bool) string {
+	// the buddy allocator already holds a merge bit that contradicts its free
+	// lists: whatever goes wrong afterwards is a consequence
+	if stale && f.kind != "merge-bit-stale" {
+		return "stale-merge-bit"
 	}
-	for _, k := range f.keys {
-		if r.shared(k.v) {
-			return "two-processes-same-vaddr"
+	// (a) the call's virtual address is recorded by the allocator for ANOTHER
+	// process (the record is keyed by virtual address only), or (b) the fact is
+	// about a page of another process at one of the call's virtual addresses
+	if stolen {
+		return "two-processes-same-vaddr"
+	}
+	if len(r.ctxPid) > int(o.Ctx) && o.K != opInit {
+		me := r.ctxPid[o.Ctx]
+		for _, k := range f.keys {
+			if k.pid == me {
+				continue
+			}
+			for _, t := range touched {
+				if t.v == k.v {
+					return "two-processes-same-vaddr"
+				}
+			}
 		}
 	}
 	if o.K == opFree {
@@ -66,11 +81,49 @@ func (r *ref) class(o op, touched []pageKey, f fact) string {
 	return ""
 }
 
-func mkSig(o op, class, anomaly string) string {
-	if class == "" {
-		return kindName[o.K] + "/" + anomaly
+// mirrorStolen reports whether the allocator's record for one of the call's
+// virtual addresses belongs to another process.
+func (s *sut) mirrorStolen(sn *snapshot, touched []pageKey) bool {
+	for _, k := range touched {
+		mine, others := false, false
+		for i, v := range sn.alloc.MirrorVAddrs {
+			if v == k.v {
+				if sn.alloc.MirrorPages[i].PID == s.pids[k.pid] {
+					mine = true
+				} else {
+					others = true
+				}
+			}
+		}
+		if others && !mine {
+			return true
+		}
 	}
-	return kindName[o.K] + "/" + class + "/" + anomaly
+	return false
+}
+
+var digits = regexp.MustCompile(`[0-9]+`)
+
+func (s *sut) mkSig(o op, class, anomaly string) string {
+	sig := kindName[o.K] + "/"
+	if strings.HasPrefix(anomaly, "out-of-memory-within-capacity") || anomaly == "allocator-record-of-other-process-overwritten" || anomaly == "merge-bit-stale" {
+		sig = "" // the call that exposes these is incidental
+		if class != "stale-merge-bit" && anomaly != "allocator-record-of-other-process-overwritten" {
+			class = ""
+		}
+	}
+	if class == "stale-merge-bit" {
+		sig = "stale-merge-bit/" + sig // first, so that one prefix covers the consequences
+		class = ""
+	}
+	if class != "" {
+		sig += class + "/"
+	}
+	sig += anomaly
+	if s.cfg.Buddy {
+		sig = "buddy/" + sig
+	}
+	return sig
 }
 
 func isOOM(msg string) bool {
@@ -83,6 +136,12 @@ func (s *sut) step(r *ref, o op, out *stepOutcome) {
 	P := r.P
 	s0 := s.snapshot()
 	f0 := s.stateFacts(s0, r)
+	staleBefore := r.tainted
+	for _, f := range f0 {
+		if f.kind == "merge-bit-stale" {
+			staleBefore = true
+		}
+	}
 	ownerBefore := make(map[uint64]pageKey, len(r.owner))
 	for k, v := range r.owner {
 		ownerBefore[k] = v
@@ -99,10 +158,10 @@ func (s *sut) step(r *ref, o op, out *stepOutcome) {
 
 	if res.panicked {
 		touched := r.touched(o, nil)
-		anomaly := "panic:" + res.panicMsg
+		anomaly := "panic:" + digits.ReplaceAllString(res.panicMsg, "N")
 		if isOOM(res.panicMsg) && (o.K == opAlloc || o.K == opAllocUnified || o.K == opRemap || o.K == opDistribute || o.K == opMigrate) {
 			tags, codeFree, need := s.leakTags(s0, r, o)
-			if s.cfg.Buddy && (codeFree >= need || onlyTag(tags, "buddy-padding")) {
+			if s.cfg.Buddy && (codeFree >= need || onlyTag(tags, "buddy-internal")) {
 				out.end = endBuddyFragmentation
 				out.describe = fmt.Sprintf("buddy allocator refused %s: %d frames free in blocks, %d needed (%s)", o, codeFree, need, res.panicMsg)
 				r.update(o, res, s.finder(), s0.devOfFrame)
@@ -111,7 +170,7 @@ func (s *sut) step(r *ref, o op, out *stepOutcome) {
 			anomaly = "out-of-memory-within-capacity/leaked-by:" + strings.Join(tags, "+")
 		}
 		f := fact{kind: anomaly, detail: fmt.Sprintf("%s panicked: %s", o, res.panicMsg)}
-		out.viols = append(out.viols, violation{sig: mkSig(o, r.class(o, touched, f), anomaly), msg: f.detail})
+		out.viols = append(out.viols, violation{sig: s.mkSig(o, r.class(o, touched, f, s.mirrorStolen(s0, touched), staleBefore), anomaly), msg: f.detail})
 		out.end = endViolation
 		r.update(o, res, s.finder(), s0.devOfFrame)
 		return
@@ -166,6 +225,12 @@ func (s *sut) step(r *ref, o op, out *stepOutcome) {
 	}
 	for x, k := range newFrames {
 		d := s0.devOfFrame(x)
+		if _, recycled := oldFrames[x]; recycled && o.K != opAlloc && o.K != opAllocUnified {
+			// a frame another page of the same call gave up (a re-homing call
+			// that returns replaced frames may reuse them at once); aliasing
+			// is still excluded by the frame-aliased invariant on the result
+			continue
+		}
 		if d < 0 || !s0.free[d].has(x) {
 			addf(fact{kind: "handed-out-frame-was-not-free", keys: []pageKey{k}, obj: fmt.Sprintf("frame%#x", x*P),
 				detail: fmt.Sprintf("%s mapped pid%d:%#x to frame %#x, which was not in any device's free structure (device %d)", o, k.pid, k.v, x*P, d)})
@@ -228,8 +293,17 @@ func (s *sut) step(r *ref, o op, out *stepOutcome) {
 				}
 			}
 		case opAlloc, opAllocUnified, opRemap, opDistribute, opMigrate:
+			k := 0
+			for x := range newFrames {
+				if s0.devOfFrame(x) == d.id {
+					k++
+				}
+			}
 			for _, x := range lost {
 				if _, ok := newFrames[x]; !ok {
+					if _, live := ownerBefore[x]; s.cfg.Buddy && !live && int(nl) < 2*k {
+						continue // padding of a power-of-two block
+					}
 					addf(fact{kind: "free-frames-lost", obj: fmt.Sprintf("frame%#x", x*P),
 						detail: fmt.Sprintf("%s removed frame %#x from the free structure of device %d without mapping it (%d lost in all)", o, x*P, d.id, nl)})
 				}
@@ -237,6 +311,9 @@ func (s *sut) step(r *ref, o op, out *stepOutcome) {
 			for _, x := range gained {
 				if _, ok := oldFrames[x]; ok && o.K != opAlloc && o.K != opAllocUnified {
 					continue // returning the replaced frames is what a re-homing call should do
+				}
+				if _, live := r.owner[x]; s.cfg.Buddy && !live && o.K != opAlloc && o.K != opAllocUnified {
+					continue // padding of a power-of-two block that was released with the replaced frames
 				}
 				addf(fact{kind: "unexpected-frames-made-reusable", keys: ownerKeysIn(ownerBefore, x), obj: fmt.Sprintf("frame%#x", x*P),
 					detail: fmt.Sprintf("%s put frame %#x into the free structure of device %d (%d gained in all)", o, x*P, d.id, ng)})
@@ -319,7 +396,11 @@ func (s *sut) step(r *ref, o op, out *stepOutcome) {
 		}
 	case opRemap:
 		for _, k := range touched {
-			onTarget(k, []int{int(o.Dev)})
+			if int(o.Dev) == s.cfg.unifiedID() {
+				onTarget(k, s.cfg.Unified)
+			} else {
+				onTarget(k, []int{int(o.Dev)})
+			}
 		}
 	case opDistribute:
 		gl := s.cfg.GPULists[o.GPUs]
@@ -399,7 +480,7 @@ func (s *sut) step(r *ref, o op, out *stepOutcome) {
 		}
 		if o.K != opFree && f.kind == "allocator-record-disagrees" && len(f.keys) == 1 {
 			if _, mine := tr[s.rawOf(f.keys[0])]; !mine {
-				f.kind = "allocator-record-of-other-page-overwritten"
+				f.kind = "allocator-record-of-other-process-overwritten"
 			}
 		}
 		facts = append(facts, f)
@@ -409,8 +490,9 @@ func (s *sut) step(r *ref, o op, out *stepOutcome) {
 	// the violations; turn them into signatures
 	sort.SliceStable(facts, func(i, j int) bool { return facts[i].kind < facts[j].kind })
 	seenSig := map[string]bool{}
+	stolen := s.mirrorStolen(s0, touched)
 	for _, f := range facts {
-		sig := mkSig(o, r.class(o, touched, f), f.kind)
+		sig := s.mkSig(o, r.class(o, touched, f, stolen, staleBefore), f.kind)
 		if seenSig[sig] {
 			continue
 		}
@@ -418,6 +500,11 @@ func (s *sut) step(r *ref, o op, out *stepOutcome) {
 		out.viols = append(out.viols, violation{sig: sig, msg: f.detail, latent: f.latent})
 		if !f.latent {
 			out.end = endViolation
+		}
+	}
+	for _, f := range f1 {
+		if f.kind == "merge-bit-stale" {
+			r.tainted = true
 		}
 	}
 	out.fp = s.fingerprint(s1, r)
@@ -478,6 +565,9 @@ func (s *sut) leakTags(sn *snapshot, r *ref, o op) (tags []string, codeFree, nee
 	case opRemap:
 		need = int(o.Hi - o.Lo)
 		devs = []int{int(o.Dev)}
+		if int(o.Dev) == c.unifiedID() {
+			devs = c.Unified
+		}
 	case opDistribute:
 		need = 1
 		devs = c.GPULists[o.GPUs]
@@ -492,6 +582,15 @@ func (s *sut) leakTags(sn *snapshot, r *ref, o op) (tags []string, codeFree, nee
 		}
 		di := sn.devs[d]
 		codeFree += int(sn.free[d].count())
+		// buddy allocator: a frame without a block-tracking entry that is not
+		// free is either padding of a power-of-two block or was handed back
+		// already and is retained until the rest of its block is handed back;
+		// both are inherent to the design. A frame that still HAS its entry
+		// was never handed back: a leak.
+		tracked := map[uint64]bool{}
+		for _, a := range sn.alloc.Devices[d].BuddyBlockAddr {
+			tracked[a/r.P] = true
+		}
 		for x := di.base; x < di.base+di.n; x++ {
 			if sn.free[d].has(x) {
 				continue
@@ -502,9 +601,9 @@ func (s *sut) leakTags(sn *snapshot, r *ref, o op) (tags []string, codeFree, nee
 			t, ok := r.lastUnmap[x]
 			if !ok {
 				t = "never-mapped"
-				if c.Buddy {
-					t = "buddy-padding"
-				}
+			}
+			if c.Buddy && !tracked[x] {
+				t = "buddy-internal"
 			}
 			set[t] = true
 		}
@@ -513,6 +612,15 @@ func (s *sut) leakTags(sn *snapshot, r *ref, o op) (tags []string, codeFree, nee
 		tags = append(tags, t)
 	}
 	sort.Strings(tags)
+	if len(tags) > 1 { // a genuine leak next to inherent buddy padding: name the leak
+		var t2 []string
+		for _, t := range tags {
+			if t != "buddy-internal" {
+				t2 = append(t2, t)
+			}
+		}
+		tags = t2
+	}
 	if len(tags) == 0 {
 		tags = []string{"nothing"}
 	}
@@ -638,6 +746,7 @@ func (s *sut) fingerprint(sn *snapshot, r *ref) [16]byte {
 		}
 	}
 	c.tag("ref")
+	c.b(r.tainted)
 	c.u(uint64(r.nProcs))
 	for _, b := range r.bufs {
 		c.u(uint64(b.ctx), uint64(b.pid), b.vaddr, b.bytes)
